@@ -225,7 +225,11 @@ func VerifC40_render() {
 		V = c40alpha("V", vfLen("nv", 0, nmax))
 		elem.Attr = []Attribute{{Key: "title", Val: V}}
 	}
-	T := c40alpha("T", vfLen("nt", 0, nmax))
+	nt := vfLen("nt", 0, nmax)
+	if vfTier() > 0 && len(V)+nt > 4 {
+		vfAssume(false) // thorough: V and T up to 3 bytes each but at most 4 symbolic bytes together (~11 paths per byte)
+	}
+	T := c40alpha("T", nt)
 	if len(T) > 0 {
 		elem.AppendChild(&Node{Type: TextNode, Data: T})
 	}
